@@ -160,7 +160,9 @@ def hostile_cases(rnd):
             cases.append(("magnitude-period", f"BEGIN:VTODO\r\nRDATE;VALUE=PERIOD:{st}/{d}\r\nFREEBUSY:{st}/{d}\r\nEND:VTODO\r\n"))
             cases.append(("magnitude-period-tz", f"BEGIN:VEVENT\r\nRDATE;VALUE=PERIOD;TZID=Pacific/Kiritimati:{st.rstrip('Z')}/{d}\r\nEND:VEVENT\r\n"))
     for tzid in ["a/" * 3000 + "b", "a/" * 3000, "a" * 100000, "../" * 500 + "etc/passwd", "a." * 2000 + "b", "Europe/" * 600 + "Berlin", "a/" * 200 + "b",
-                 "\x00", "Europe/Berlin\x00", "CON", "a" * 255, "a" * 256]:
+                 "\x00", "Europe/Berlin\x00", "CON", "a" * 255, "a" * 256,
+                 # limits that count octets, not characters
+                 "\u00e9" * 130, "\u00e9" * 200, "\u3042" * 90, "\u3042" * 255, "x/" + "\U0001F600" * 70, "\u00e9" * 4000]:
         cases.append(("magnitude-tzid", f"BEGIN:VTODO\r\nDUE;TZID={tzid}:20200101T000000\r\nEND:VTODO\r\n"))
         cases.append(("magnitude-tzid-ev", f"BEGIN:VEVENT\r\nDTSTART;TZID={tzid}:20200101T000000\r\nRDATE;TZID={tzid}:20200101T000000\r\nEND:VEVENT\r\n"))
     for num in ["9" * 5000, "-" + "9" * 5000, "1e999", "-1e999", "nan", "inf", "1" + "0" * 400 + ".5", "0." + "0" * 400 + "1", "1_0", " 1", "+1", "٣"]:
